@@ -122,6 +122,7 @@ func (e *rpcEnv) runGrpcSock(ev *RpcEv) {
 	if co.Status.Shape == nil {
 		co.Status.Shape = []string{}
 	}
+	co.Forged = e.forgedKeys(co.Hdr, co.Trl)
 	// grpc-go hands -bin values over as raw bytes
 	co.Hdr = hexBinRaw(filterMD(co.Hdr))
 	co.Trl = hexBinRaw(filterMD(co.Trl))
